@@ -82,7 +82,9 @@ class State:
         self._from = None
 
     def copy(self):
-        return State(self.cells, self.facts)
+        c = State(self.cells, self.facts)
+        c._from = self._from
+        return c
 
     def sig(self):
         return (tuple(sorted(self.cells.items(), key=lambda kv: str(kv[0]))), tuple(sorted(self.facts.items(), key=lambda kv: str(kv[0]))))
@@ -154,7 +156,10 @@ class FunctionAnalysis:
             al = self.cells[cell[1]]
             t = self.P.di_strip(al.get("ditype", -1))
             signed = bool(t) and t.get("kind") == "base" and t.get("enc") in (5, 6, 13)   # DW_ATE_signed, signed_char
-            return srange(bits) if signed else urange(bits) if bits < 64 else (-(1 << 63), (1 << 64) - 1)
+            if bits >= 64:
+                # 64-bit cells (sizes, indices, time stamps) are treated as mathematical integers: they cannot wrap by counting
+                return (-INF, INF) if signed else (0, INF)
+            return srange(bits) if signed else urange(bits)
         return self.E.global_iv[cell[1]]
 
     # ---------------------------------------------------------------- evaluation
@@ -462,6 +467,18 @@ class FunctionAnalysis:
             return st
         if i.op == "phi" and i["ty"] == "i1":
             want = 1 if truth else 0
+            # the partition knows which predecessor it came through
+            frm = getattr(st, "_from", None)
+            if frm is not None:
+                inc = [(b, v) for b, v in i["incoming"] if b == frm]
+                if len(inc) == 1:
+                    v = inc[0][1]
+                    if v.get("k") == "const":
+                        return st if (v["v"] & 1) == want else None
+                    r = self.refine(v, truth, st)
+                    if r is not None:
+                        r._from = frm
+                    return r
             alive = [(b, v) for b, v in i["incoming"] if not (v.get("k") == "const" and (v["v"] & 1) != want)]
             if len(alive) == 1 and alive[0][1].get("k") != "const":
                 return self.refine(alive[0][1], truth, st)
@@ -515,6 +532,12 @@ class FunctionAnalysis:
         # a <= b - off
         if ia[0] > ib[1] - off:
             return None
+        # the same test with relational facts: a lower bound of (a - b) is minus the upper bound of (b - a)
+        nd = b.add(a, -1)
+        if nd.t:
+            lbd = -self.iv_lf(nd, st)[1]
+            if lbd + off > 0:
+                return None
         self._restrict(a, (ia[0], min(ia[1], ib[1] - off)), st)
         self._restrict(b, (max(ib[0], ia[0] + off), ib[1]), st)
         d = a.add(b, -1)
@@ -558,7 +581,8 @@ class FunctionAnalysis:
                         if c is not None:
                             written_in_loops.add(c)
             self._part_cells = {("a", a) for a in self.cells} - written_in_loops
-        return tuple(sorted((c, v[0]) for c, v in st.cells.items() if v[0] == v[1] and c in self._part_cells))
+        back = st._from is not None and st._from in self.fn.natural_loop_of(head)
+        return (back,) + tuple(sorted((c, v[0]) for c, v in st.cells.items() if v[0] == v[1] and c in self._part_cells))
 
     def widen(self, old, new):
         c = {}
@@ -598,7 +622,12 @@ class FunctionAnalysis:
                 groups = {}
                 for s_ in states:
                     gk = self._group_key(bid, s_)
-                    groups[gk] = join(groups[gk], s_) if gk in groups else s_
+                    if gk in groups:
+                        j_ = join(groups[gk], s_)
+                        j_._from = s_._from
+                        groups[gk] = j_
+                    else:
+                        groups[gk] = s_
                 if len(groups) > PARTITIONS:
                     j = None
                     for s_ in groups.values():
@@ -617,6 +646,7 @@ class FunctionAnalysis:
                             j2 = self.widen(old, j2)
                         if j2.sig() == old.sig():
                             continue
+                        j2._from = j._from
                         j = j2
                     head_state[(bid, gk)] = j
                     changed_any = True
@@ -631,7 +661,9 @@ class FunctionAnalysis:
                 cur = instates[succ]
                 changed = False
                 if succ in self.loop_heads:
-                    # accumulate per control partition; the head joins within a partition
+                    # accumulate per control partition (first entry and back edge apart: one peeled iteration); the head joins within a partition
+                    for s_ in sts:
+                        s_._from = bid
                     bykey = {}
                     for s_ in cur:
                         bykey[self._group_key(succ, s_)] = s_
@@ -639,6 +671,7 @@ class FunctionAnalysis:
                         gk = self._group_key(succ, s_)
                         if gk in bykey:
                             j = join(bykey[gk], s_)
+                            j._from = s_._from
                             if j.sig() != bykey[gk].sig():
                                 bykey[gk] = j
                                 changed = True
